@@ -43,6 +43,10 @@ def use_repo():
         sys.path.insert(0, p)
     os.environ["DELB_VERIF"] = "1"
     sys.unraisablehook = _unraisable
+    import warnings
+
+    # generated trees carry invalid xml:space values on purpose
+    warnings.filterwarnings("ignore", message="Encountered and ignoring an invalid")
 
 
 UNRAISABLE: list[str] = []
